@@ -44,14 +44,14 @@ class Emission:
         literal order"""
         guards = sorted({a for g in guards for a in guard_atoms(g)} - {"True"})
         args = list(args)
-        if args and builder not in NO_LITERAL_LIST:
+        if args and builder not in NO_LITERAL_LIST and " = " not in builder and builder not in ("yield", "return", "yield from"):
             args[0] = canon_literals(args[0])
         order = []
         for t, d in quants:
             for m in re.findall(r"\bq\d+\b", t):
                 if m not in order:
                     order.append(m)
-        for x in list(guards) + list(args):
+        for x in [d for t, d in quants] + list(guards) + list(args):
             for m in re.findall(r"\bq\d+\b", x):
                 if m not in order:
                     order.append(m)
@@ -62,7 +62,7 @@ class Emission:
         q = tuple((rn(t), rn(d)) for t, d in quants)
         g = tuple(sorted({a for x in guards for a in guard_atoms(rn(x))}))
         a = [rn(x) for x in args]
-        if a and builder not in NO_LITERAL_LIST:
+        if a and builder not in NO_LITERAL_LIST and " = " not in builder and builder not in ("yield", "return", "yield from"):
             a[0] = canon_literals(a[0])
         return (q, g, tuple(a))
 
@@ -222,6 +222,16 @@ class _Strip(ast.NodeTransformer):
         return n
 
 
+class _NoLabel(ast.NodeTransformer):
+    """the label of a variable group names the variables; it is not part of the constraint system"""
+
+    def visit_Call(self, n):
+        self.generic_visit(n)
+        if isinstance(n.func, ast.Attribute) and (n.func.attr.startswith("new_")) and any(k.arg == "label" for k in n.keywords):
+            n.keywords = [k for k in n.keywords if k.arg != "label"]
+        return n
+
+
 class _CompRename(ast.NodeTransformer):
     """rename comprehension-bound variables to c0, c1, .. in order of binding"""
 
@@ -251,6 +261,7 @@ def norm(expr, inline, rename):
         e2 = _Subst(inline).visit(e)
         e = e2
     e = _Strip().visit(e)
+    e = _NoLabel().visit(e)
     e = _Subst(rename).visit(e)
     e = _CompRename().visit(e)
     ast.fix_missing_locations(e)
@@ -262,8 +273,9 @@ def norm(expr, inline, rename):
 
 
 class Extractor:
-    def __init__(self, fi, formula_names=None, group_names=None, extra_inline=None):
+    def __init__(self, fi, formula_names=None, group_names=None, extra_inline=None, helper=False):
         self.fi = fi
+        self.helper = helper
         self.fnode = fi.node
         self.formula_names = set(formula_names or [])
         self.rename = {}
@@ -278,6 +290,10 @@ class Extractor:
         assigns = {}
         for s in stmts_in(self.fnode):
             tg = []
+            if isinstance(s, ast.Assign) and len(s.targets) == 1 and isinstance(s.targets[0], ast.Name) and \
+                    isinstance(s.value, ast.Call) and isinstance(s.value.func, ast.Attribute) and s.value.func.attr == "to_dict" and \
+                    src(s.value.func.value) == s.targets[0].id:
+                continue          # `s = s.to_dict()`: the same group under the same name, indexed s[i, j] instead of s(i, j)
             if isinstance(s, ast.Assign):
                 for t in s.targets:
                     tg += [n.id for n in ast.walk(t) if isinstance(n, ast.Name) and isinstance(n.ctx, ast.Store)]
@@ -306,6 +322,17 @@ class Extractor:
                         counts[n.id] = counts.get(n.id, 0) + 2     # loop variables are never inlined
             for t in tg:
                 counts[t] = counts.get(t, 0) + 1
+        # `A, B = call()` / `A, B = x, y` bound once: A -> call()[0], B -> call()[1]
+        for s in stmts_in(self.fnode):
+            if isinstance(s, ast.Assign) and len(s.targets) == 1 and isinstance(s.targets[0], ast.Tuple) and \
+                    all(isinstance(e, ast.Name) for e in s.targets[0].elts):
+                for i, e in enumerate(s.targets[0].elts):
+                    if counts.get(e.id) == 1 and e.id not in self.fi.params:
+                        if isinstance(s.value, ast.Tuple) and len(s.value.elts) == len(s.targets[0].elts):
+                            assigns[e.id] = s.value.elts[i]
+                        else:
+                            assigns[e.id] = ast.Subscript(value=s.value, slice=ast.Constant(value=i), ctx=ast.Load())
+        self.counts = counts
         # formula objects and groups
         for name, v in list(assigns.items()):
             if isinstance(v, ast.Call):
@@ -316,26 +343,111 @@ class Extractor:
                     self.formula_names.add(name)          # result of a nested family generator
         for name in self.formula_names:
             self.rename[name] = "F"
+        groups = {}
         for name, v in assigns.items():
             if isinstance(v, ast.Call) and isinstance(v.func, ast.Attribute) and v.func.attr in (NEW_GROUP | {"new_variable"}) \
                     and src(v.func.value) in self.formula_names:
-                lab = None
-                for k in v.keywords:
-                    if k.arg == "label":
-                        lab = k.value
-                if lab is None and v.func.attr == "new_variable" and v.args:
-                    lab = v.args[0]
-                stem = label_stem(lab) if lab is not None else None
-                self.rename[name] = group_names.get(name) or stem or name
+                groups[name] = v
         for k, v in group_names.items():
             self.rename.setdefault(k, v)
         # single-assignment locals (not groups / formulas / loop variables) are inlined
         for name, v in assigns.items():
-            if counts.get(name) == 1 and name not in self.rename and name not in self.fi.params and name not in self.inline:
+            if counts.get(name) == 1 and name not in self.rename and name not in groups and name not in self.fi.params \
+                    and name not in self.inline:
                 self.inline[name] = v
+        # a variable group is named by what it is, not by its label or by the local it is kept in: g0, g1, .. in the order of the
+        # allocation signatures `method(arguments)` (equal signatures keep their source order)
+        sig = {}
+        for name, v in groups.items():
+            if name in group_names:
+                self.rename[name] = group_names[name]
+                continue
+            pos = list(v.args)
+            if v.func.attr == "new_variable" and pos and not any(k.arg == "label" for k in v.keywords):
+                pos = pos[1:]
+            args = [norm(a, self.inline, self.rename) for a in pos] + \
+                   ["%s=%s" % (k.arg, norm(k.value, self.inline, self.rename)) for k in v.keywords if k.arg != "label"]
+            sig[name] = ("%s(%s)" % (v.func.attr, ", ".join(args)), getattr(v, "lineno", 0))
+        for i, name in enumerate(sorted(sig, key=lambda n: sig[n])):
+            self.rename[name] = "g%d" % i
 
     # ------------------------------------------------------------------
+    MUTATORS = ("append", "extend", "insert", "pop", "remove", "sort", "add", "update", "reverse", "clear")
+
+    def _writes(self, s, name):
+        for n in ast.walk(s):
+            if isinstance(n, ast.Name) and n.id == name and isinstance(n.ctx, (ast.Store, ast.Del)):
+                return True
+            if isinstance(n, ast.Call) and isinstance(n.func, ast.Attribute) and n.func.attr in self.MUTATORS:
+                b = n.func.value
+                while isinstance(b, ast.Subscript):
+                    b = b.value
+                if isinstance(b, ast.Name) and b.id == name:
+                    return True
+            if isinstance(n, ast.Subscript) and isinstance(n.ctx, ast.Store):
+                b = n.value
+                while isinstance(b, ast.Subscript):
+                    b = b.value
+                if isinstance(b, ast.Name) and b.id == name:
+                    return True
+        return False
+
+    def _render_stmt(self, s, local):
+        if isinstance(s, ast.For):
+            loc = self._bind_target(s.target, local)
+            body = [b for b in s.body if not (isinstance(b, ast.Assign) and len(b.targets) == 1 and isinstance(b.targets[0], ast.Name)
+                                              and b.targets[0].id in self.inline)]      # inlined where used
+            return "for %s in %s: %s" % (self._n(s.target, loc), self._n(s.iter, local), ", ".join(self._render_stmt(b, loc) for b in body))
+        if isinstance(s, ast.If):
+            t = "if %s: %s" % (" and ".join(guard_atoms(self._n(s.test, local))), ", ".join(self._render_stmt(b, local) for b in s.body))
+            if s.orelse:
+                t += " else: %s" % ", ".join(self._render_stmt(b, local) for b in s.orelse)
+            return t
+        if isinstance(s, ast.Assign):
+            return "%s = %s" % (" = ".join(self._n(t, local) for t in s.targets), self._n(s.value, local))
+        if isinstance(s, ast.AugAssign):
+            return "%s %s= %s" % (self._n(s.target, local), {ast.Add: "+", ast.Sub: "-", ast.Mult: "*"}.get(type(s.op), "?"), self._n(s.value, local))
+        if isinstance(s, ast.Expr):
+            return self._n(s.value, local)
+        return " ".join(src(s).split())
+
+    def _definition(self, name):
+        """normal-form text of the top-level statements that assign or mutate ``name`` (a local built up in several steps)"""
+        if name in self._defs:
+            return self._defs[name]
+        self._defs[name] = name          # recursion guard
+        parts = [self._render_stmt(s, {name: "_it"}) for s in self.fnode.body if self._writes(s, name) and not isinstance(s, ast.Return)
+                 and not (isinstance(s, ast.Expr) and isinstance(s.value, (ast.Yield, ast.YieldFrom)))]
+        self._defs[name] = "{" + "; ".join(parts) + "}" if parts else name
+        return self._defs[name]
+
+    def _expand(self, text):
+        """replace the locals that are built up by several statements (not inlinable) by the text of their definition"""
+        for name in self.opaque:
+            if re.search(r"(?<![\w.])%s\b" % re.escape(name), text):
+                d = self._definition(name)
+                text = re.sub(r"(?<![\w.])%s\b" % re.escape(name), lambda m: d, text)
+        return text
+
     def run(self, stmts=None):
+        self._defs = {}
+        # locals assigned more than once or mutated in place at the top level of the function: neither parameters nor groups
+        top_written = set()
+        for s in self.fnode.body:
+            if isinstance(s, (ast.Assign, ast.AugAssign, ast.For, ast.Expr, ast.If, ast.With)):
+                for n in ast.walk(s):
+                    if isinstance(n, ast.Name) and isinstance(n.ctx, ast.Store):
+                        top_written.add(n.id)
+        self.opaque = {n for n in top_written if (self.counts.get(n, 0) > 1 or n in self.mutated)
+                       and n not in self.rename and n not in self.inline and n not in self.fi.params
+                       and not any(isinstance(st, ast.For) and n in [x.id for x in ast.walk(st.target) if isinstance(x, ast.Name)]
+                                   for st in stmts_in(self.fnode))}
+        self._run(stmts)
+        for e in self.emissions:
+            pass
+        return self.emissions
+
+    def _run(self, stmts=None):
         self._block(stmts if stmts is not None else self.fnode.body, [], [], {})
         return self.emissions
 
@@ -517,9 +629,22 @@ class Extractor:
             return [txt]
         return None
 
+    def _emit(self, quants, guards, builder, args, node):
+        X = self._expand
+        self.emissions.append(Emission([(t, X(d)) for t, d in quants], [X(g) for g in guards], builder, [X(a) for a in args], node))
+
     def _calls(self, s, quants, guards, local):
         if isinstance(s, (ast.FunctionDef, ast.ClassDef)):
             return
+        if self.helper:
+            v = None
+            if isinstance(s, ast.Expr) and isinstance(s.value, (ast.Yield, ast.YieldFrom)) and s.value.value is not None:
+                v, b = s.value.value, ("yield" if isinstance(s.value, ast.Yield) else "yield from")
+            elif isinstance(s, ast.Return) and s.value is not None:
+                v, b = s.value, "return"
+            if v is not None:
+                built = self._built.get(id(s), {})
+                self._emit(quants, guards, b, [built[v.id] if isinstance(v, ast.Name) and v.id in built else self._n(v, local)], s)
         for c in [n for n in ast.walk(s) if isinstance(n, ast.Call)]:
             f = c.func
             if isinstance(f, ast.Attribute) and f.attr in EMITTERS and src(f.value) in self.formula_names | {"self"}:
@@ -527,7 +652,20 @@ class Extractor:
                 args = [built[a.id] if isinstance(a, ast.Name) and a.id in built else self._n(a, local)
                         for a in c.args if not (isinstance(a, ast.Constant) and isinstance(a.value, bool))]
                 args += ["%s=%s" % (k.arg, self._n(k.value, local)) for k in c.keywords if k.arg not in ("check",)]
-                self.emissions.append(Emission(list(quants), list(guards), f.attr, args, c))
+                self._emit(list(quants), list(guards), f.attr, args, c)
+            elif isinstance(f, ast.Attribute) and f.attr in (NEW_GROUP | {"new_variable"}) and src(f.value) in self.formula_names:
+                # allocation of a variable group: which shape, under which name
+                lab = [k.value for k in c.keywords if k.arg == "label"]
+                pos = list(c.args)
+                if f.attr == "new_variable" and pos and not lab:
+                    lab, pos = [pos[0]], pos[1:]
+                name = None
+                if isinstance(s, ast.Assign) and s.value is c and len(s.targets) == 1 and isinstance(s.targets[0], ast.Name):
+                    name = self.rename.get(s.targets[0].id)
+                if name is None:
+                    name = (label_stem(lab[0]) if lab else None) or "?"
+                args = [self._n(a, local) for a in pos] + ["%s=%s" % (k.arg, self._n(k.value, local)) for k in c.keywords if k.arg != "label"]
+                self._emit(list(quants), list(guards), "%s = %s" % (name, f.attr), args, c)
 
 
 def _parses(txt):
@@ -538,8 +676,8 @@ def _parses(txt):
         return False
 
 
-def extract(fi, formula_names=None, group_names=None, stmts=None, extra_inline=None):
-    return Extractor(fi, formula_names, group_names, extra_inline).run(stmts)
+def extract(fi, formula_names=None, group_names=None, stmts=None, extra_inline=None, helper=False):
+    return Extractor(fi, formula_names, group_names, extra_inline, helper).run(stmts)
 
 
 def spec(text):
